@@ -1197,6 +1197,11 @@ fn c03_latticesum(t: &[&str]) -> Option<String> {
         None => return Some("ok holds not-lj".to_string()),
     };
     let (want, wsym) = l.sums(3);
+    if l.min_r == 0.0 {
+        // two distinct particle images at exactly the same place (a site on a special position): the
+        // lattice energy is unbounded, so no finite number is minus the energy per molecule
+        return Some(format!("ok FAILS sum: score {:e} is finite for a crystal in which two particle images coincide (unbounded lattice energy)", score));
+    }
     if l.min_r < 1e-2 {
         // (nearly) coincident particles: positions cancel catastrophically, nothing can be compared
         return Some("ok holds coincident-particles".to_string());
